@@ -138,6 +138,7 @@ class C04Monitor(Monitor):
     def __init__(self):
         self.probe = {"moments": 0, "in_callback": 0, "ties_for_min": 0, "opt_changes": 0}
         self._last_best = {}
+        self._best_seen = {}
 
     def _check(self, w, a, sol, where):
         calls = [c for c in a.calls if c.completed and c.phase in ("global", "global_extra", "pending")]
@@ -167,6 +168,15 @@ class C04Monitor(Monitor):
             worst = [c for c in calls if c.value == mn][0]
             w.flag(self.prop, "not_minimal", "%s at %s: best value %r but trial #%d at %r has value %r" % (a.aid, where, val, worst.idx, worst.y, mn), where)
             return
+        # the best trial reported (and verified) at an earlier moment - possibly a locally refined point - is an
+        # evaluated trial too: the current best may not be worse than it
+        prev = self._best_seen.get(a.aid)
+        if prev is not None and val > prev[0]:
+            w.flag(self.prop, "worsened", "%s at %s: best value %r at %r, but the best trial reported earlier (%s) was %r with the "
+                   "smaller value %r" % (a.aid, where, val, pt, prev[2], prev[1], prev[0]), where)
+            return
+        if prev is None or val < prev[0]:
+            self._best_seen[a.aid] = (val, pt, where)
         if sum(1 for c in calls if c.value == mn) > 1:
             self.probe["ties_for_min"] += 1
         if self._last_best.get(a.aid) != pt:
